@@ -13,10 +13,10 @@ def same(R, src_struct, src_hash, got, what, W):
     R.check(bridge.struct_lib(got) == src_struct, 'roundtrip-structure', f'{what}: parsed DAG differs in bits/type/refs', W)
 
 
-def one(R, B, name, r, c, W, all_forms=True):
+def one(R, B, name, r, c, W, all_forms=True, huge=False):
     src = bridge.struct_lib(c)
     ordinary_root = r.type == rc.ORD
-    for oi, o in enumerate(OPTS):
+    for oi, o in enumerate(OPTS if not huge else [OPTS[0], OPTS[5]]):
         st, b = mon.call(c.to_boc, *o)
         if st == 'exc':
             R.exc(b)
@@ -31,6 +31,8 @@ def one(R, B, name, r, c, W, all_forms=True):
                        ('Slice.one_from_boc', lambda d: B.Slice.one_from_boc(d).to_cell())]
             if ordinary_root:
                 entries.append(('Builder.one_from_boc', lambda d: B.Builder.one_from_boc(d).end_cell()))
+            if huge:
+                entries = [entries[oi % len(entries)]]
             for ename, f in entries:
                 st, got = mon.call(f, data)
                 R.count(f'parse:{fname}:{ename}')
@@ -63,7 +65,7 @@ def run(R):
             R.exc(c)
             R.violation(f'build-raises-{type(c).__name__}', f'cannot build {name}: {c!r}', W)
             continue
-        one(R, B, name, r, c, W, all_forms=n < 3000)
+        one(R, B, name, r, c, W, all_forms=n < 3000, huge=n > 20000)
         R.case(mon.fp(r.hash) if n > 1 else None, sample={'class': name, 'cells': n, 'types': sorted({x.type for x in cells})} if not name.startswith('bulk') or R.evaluations < 3 else None)
         R.cover('classes', name)
         R.cover('sharing', min(8, max_fanin(cells)))
